@@ -2,7 +2,7 @@
    checker to OCaml.  Only ExtrOcamlBasic is used (bool, option, unit, list, prod, sumbool as
    OCaml's own types); nat, positive, N and Z stay Coq's own (unary / binary) datatypes. *)
 From Coq Require Import ZArith List Extraction ExtrOcamlBasic.
-From HB Require Import RsPrelude Sse2 Gen Group Raw Map Check AssocSpec Triangular.
+From HB Require Import RsPrelude Sse2 Gen Group Raw Map Check AssocSpec Triangular SetAlg SetOps.
 
 Extraction Language OCaml.
 
@@ -20,4 +20,6 @@ Extraction "../ocaml/extracted/hb.ml"
   Group.bm_iter Gen.bm_any_bit_set Gen.bm_lowest_set_bit Gen.bm_leading_zeros Gen.bm_trailing_zeros
   Raw.new_table Map.map_step
   Check.safe_wf_check Check.hash_wf_check Check.wf_check Check.occupants
-  AssocSpec.spec_accepts AssocSpec.unwind_accepts AssocSpec.same_set.
+  AssocSpec.spec_accepts AssocSpec.unwind_accepts AssocSpec.same_set
+  SetAlg.union SetAlg.intersection SetAlg.difference SetAlg.symmetric_difference SetAlg.is_subset SetAlg.is_superset
+  SetAlg.is_disjoint SetAlg.set_eq SetAlg.difference_size_hint SetOps.set2_step.
